@@ -52,6 +52,8 @@ def _pj(x):
     return ".?"
 
 
+AST = None          # syntax-tree index (set by the check driver): values of named constant structs
+
 EMPTY = (2 ** 300, -2 ** 300)          # the interval of a value that cannot exist on this path
 
 
@@ -107,6 +109,10 @@ class Intervals:
         return None
 
     def val(self, env, op):
+        p0 = (op.get("copy") or op.get("move")) if isinstance(op, dict) else None
+        if p0 is not None and p0["p"] and p0["p"][0] == "deref" and ("r", p0["l"]) in env:
+            # `(*r).f` where r = &x: the field of x
+            op = {"copy": {"l": env[("r", p0["l"])], "p": list(p0["p"][1:])}}
         k = self.op_key(op)
         if k is not None and k[0] in ("a", "e"):
             return None
@@ -180,7 +186,12 @@ class Intervals:
         def hits(kk):
             return kk is not None and ((kk[0] == "l" and kk[1] == local) or (kk[0] == "p" and re.match(r"^%d(\D|$)" % local, kk[1]) is not None))
         env.pop(("d", local), None)
+        env.pop(("r", local), None)
         for k in list(env):
+            if k[0] == "r":
+                if env[k] == local:
+                    del env[k]
+                continue
             if k[0] == "d":
                 continue
             if k[0] == "e":
@@ -218,10 +229,31 @@ class Intervals:
         self.relf.pop(k, None)
         self.discf.pop(k, None)
         iv = None
+        if kind == "ref" and not p["p"] and not rv["place"]["p"] and not rv.get("mut"):
+            env[("r", p["l"])] = rv["place"]["l"]          # a shared reference to a whole local
+        if kind == "use" and not p["p"] and isinstance(rv["x"], dict) and "const" in rv["x"] and rv["x"]["const"].get("val") is None and AST is not None:
+            # a named constant struct (`const K: S = S { a: 1, b: 4 }`): its integer fields, from the syntax tree
+            c = rv["x"]["const"]
+            nm = (c.get("uneval") or c.get("text") or "").split("::")[-1]
+            fields = (self.mir.structs.get(c.get("ty") or "") or {}).get("fields")
+            cs = AST.const(nm) if nm and fields else []
+            if len(cs) == 1 and cs[0][3]["value"].get("k") == "Struct":
+                from astq import eval_int
+                for f in cs[0][3]["value"].get("fields", []):
+                    idx = next((i for i, fd in enumerate(fields) if fd["name"] == f.get("member")), None)
+                    if idx is None:
+                        continue
+                    try:
+                        v = eval_int(f["e"])
+                    except Exception:
+                        continue
+                    env[("l", p["l"], idx)] = (v, v)
         if kind == "use":
             iv = self.val(env, rv["x"])
             sk = self.op_key(rv["x"])
             sp = rv["x"].get("copy") or rv["x"].get("move") if isinstance(rv["x"], dict) else None
+            if sp is not None and not sp["p"] and not p["p"] and ("r", sp["l"]) in env:
+                env[("r", p["l"])] = env[("r", sp["l"])]
             if sp is not None and not sp["p"] and not p["p"] and sp["l"] != p["l"]:
                 # a whole local copied / moved: what is known about its fields and variant payloads goes with it
                 if ("d", sp["l"]) in env:
@@ -641,7 +673,7 @@ class Intervals:
                     old = self.entry[s]
                     new = {}
                     for k in old:
-                        if k in e and k[0] in ("a", "e"):
+                        if k in e and k[0] in ("a", "e", "r"):
                             if old[k] == e[k]:
                                 new[k] = old[k]
                             continue
